@@ -90,7 +90,9 @@ func runC06(p *Program, r *Result) {
 			var rt *Term
 			if sl.inside {
 				rs := t.Find("Rand")
-				if len(rs) == 1 {
+				// a merge on the way to the random buffer means that on some path the value is
+				// something else (a cached or constant salt): not a fresh draw on every path
+				if len(rs) == 1 && !underMerge(t, rs[0]) {
 					rt = rs[0]
 				}
 			} else if t.Op == "Rand" {
@@ -158,13 +160,7 @@ func runC06(p *Program, r *Result) {
 			caller := e.Caller
 			tb := p.TB(caller)
 			key := tb.Term(c.Common().Args[0])
-			rands := key.Find("Rand")
-			okc := false
-			for _, rt := range rands {
-				if in, isIn := rt.V.(ssa.Instruction); isIn && in.Parent() == caller {
-					okc = true
-				}
-			}
+			okc := freshOnEveryPath(key, caller)
 			r.Check(okc, caller.String(), "call:"+short(ae.String())+":key", r.pos(c), "key term contains a Rand of this invocation",
 				"aeadEncrypt (fixed zero nonce) is called with key "+short(key.String())+", which does not depend on randomness drawn in this call: the (key, nonce) pair can repeat")
 		}
@@ -174,6 +170,55 @@ func runC06(p *Program, r *Result) {
 	r.Rule("R06.6", "STREAM writer: one nonce per sealed chunk, final flag on the last chunk only, nothing sealed after it", 9)
 	checkStreamWriter(p, r)
 	checkNonceLayout(p, r)
+}
+
+// underMerge: on the way from t down to target there is a Phi.
+func underMerge(t, target *Term) bool {
+	var rec func(x *Term, merged bool) (found, viaMerge bool)
+	rec = func(x *Term, merged bool) (bool, bool) {
+		if x == target {
+			return true, merged
+		}
+		for _, a := range x.Args {
+			if f, m := rec(a, merged || x.Op == "Phi"); f {
+				return true, m
+			}
+		}
+		return false, false
+	}
+	_, m := rec(t, false)
+	return m
+}
+
+// freshOnEveryPath: the value is a function of a crypto/rand buffer drawn in this
+// invocation whatever path produced it: every alternative of a merge must be.
+func freshOnEveryPath(t *Term, caller *ssa.Function) bool {
+	if t == nil {
+		return false
+	}
+	switch t.Op {
+	case "Rand":
+		in, isIn := t.V.(ssa.Instruction)
+		return isIn && in.Parent() == caller
+	case "Loop":
+		return true // the value itself, one iteration earlier
+	case "Phi":
+		if len(t.Args) == 0 {
+			return false
+		}
+		for _, a := range t.Args {
+			if !freshOnEveryPath(a, caller) {
+				return false
+			}
+		}
+		return true
+	}
+	for _, a := range t.Args {
+		if freshOnEveryPath(a, caller) {
+			return true
+		}
+	}
+	return false
 }
 
 func checkMathRand(p *Program, r *Result) {
@@ -333,8 +378,9 @@ func checkStreamWriter(p *Program, r *Result) {
 	write := r.anchor(pkgStream, "Writer", "Write")
 	cls := r.anchor(pkgStream, "Writer", "Close")
 	inc := r.anchor(pkgStream, "", "incNonce")
-	set := r.anchor(pkgStream, "", "setLastChunkFlag")
-	if flush == nil || write == nil || cls == nil || inc == nil || set == nil {
+	// setLastChunkFlag is spliced into its callers by the normal form: the flag store is
+	// recognised by what it does (streamfx.go)
+	if flush == nil || write == nil || cls == nil || inc == nil {
 		return
 	}
 	// (a) one Seal site in the package, in flushChunk
@@ -380,10 +426,17 @@ func checkStreamWriter(p *Program, r *Result) {
 	r.Check(nInc == 1, pkgStream+".Writer", "incNonce:sites", "", "single increment site on the writer side", "the writer increments its nonce at "+itoa(nInc)+" sites")
 
 	// (c) final flag only under last
-	for i, c := range callsTo(flush, set.String()) {
-		facts := tb.FactsAt(c.Block())
-		_, ok := findFact(facts, func(a Atom) bool { return a.Kind == "bool" && a.Pol && a.X.String() == "P1" })
-		r.Check(ok, flush.String(), callKey("setLastChunkFlag", i), r.pos(c), "under last == true", "the final-chunk flag is set on a path where last is not known to be true")
+	nFlag := 0
+	for _, b := range flush.Blocks {
+		for _, in := range b.Instrs {
+			if !p.isFlagSet(in) {
+				continue
+			}
+			facts := tb.FactsAt(b)
+			_, ok := findFact(facts, func(a Atom) bool { return a.Kind == "bool" && a.Pol && a.X.String() == "P1" })
+			r.Check(ok, flush.String(), callKey("setLastChunkFlag", nFlag), r.pos(in), "under last == true", "the final-chunk flag is set on a path where last is not known to be true")
+			nFlag++
+		}
 	}
 	// and on the last path it is set before Seal
 	{
@@ -415,7 +468,7 @@ func checkStreamWriter(p *Program, r *Result) {
 					if in == seal.(ssa.Instruction) {
 						break
 					}
-					if c, ok := in.(ssa.CallInstruction); ok && calleeName(c.Common()) == set.String() {
+					if p.isFlagSet(in) {
 						flagged = true
 					}
 				}
